@@ -292,22 +292,33 @@ impl RaftSnapshotManager {
                 act.is_init = true;
                 act.snapshots = raft_index.snapshots;
                 if let Some(last) = act.snapshots.last() {
-                    act.load_snapshot_header(ctx, last.id);
+                    act.load_snapshot_header(ctx, last.id, false);
                 }
             }
         })
         .wait(ctx);
     }
 
-    fn load_snapshot_header(&mut self, ctx: &mut Context<Self>, snapshot_id: u64) {
+    /// Loads the header of the snapshot into `last_header`, in a wait future: `last_header` is
+    /// the previous snapshot's until that future has run. With `save_member` the membership and
+    /// the node addresses of the loaded header are saved to the index.
+    fn load_snapshot_header(
+        &mut self,
+        ctx: &mut Context<Self>,
+        snapshot_id: u64,
+        save_member: bool,
+    ) {
         let path = Self::get_snapshot_path(&self.base_path, snapshot_id);
         async move {
             let reader = SnapshotReader::init(&path).await?;
             Ok(reader.header)
         }
         .into_actor(self)
-        .map(|v: anyhow::Result<SnapshotHeaderDto>, act, _ctx| {
+        .map(move |v: anyhow::Result<SnapshotHeaderDto>, act, _ctx| {
             if let Ok(v) = v {
+                if save_member {
+                    act.save_member_to_index(&v);
+                }
                 act.last_header = Some(v);
             }
         })
@@ -346,6 +357,7 @@ impl RaftSnapshotManager {
         &mut self,
         ctx: &mut Context<Self>,
         snapshot_range: SnapshotRange,
+        save_member: bool,
     ) -> anyhow::Result<()> {
         self.building.take();
         //1. 删除历史镜像
@@ -355,7 +367,7 @@ impl RaftSnapshotManager {
         } else {
             self.snapshots.push(snapshot_range);
             //更新snapshot到index中
-            return self.save_snapshot_to_index(ctx);
+            return self.save_snapshot_to_index(ctx, save_member);
         };
         for item in &self.snapshots[0..split_index] {
             let path = Self::get_snapshot_path(&self.base_path, item.id);
@@ -369,14 +381,18 @@ impl RaftSnapshotManager {
         }
         new_snapshots.push(snapshot_range);
         self.snapshots = new_snapshots;
-        self.save_snapshot_to_index(ctx)
+        self.save_snapshot_to_index(ctx, save_member)
     }
 
-    fn save_snapshot_to_index(&mut self, ctx: &mut Context<Self>) -> anyhow::Result<()> {
+    fn save_snapshot_to_index(
+        &mut self,
+        ctx: &mut Context<Self>,
+        save_member: bool,
+    ) -> anyhow::Result<()> {
         let index_request = RaftIndexRequest::SaveSnapshots(self.snapshots.clone());
         self.index_manager.as_ref().unwrap().do_send(index_request);
         if let Some(last) = self.snapshots.last() {
-            self.load_snapshot_header(ctx, last.id);
+            self.load_snapshot_header(ctx, last.id, save_member);
         }
         Ok(())
     }
@@ -391,9 +407,15 @@ impl RaftSnapshotManager {
             id: snapshot_id,
             end_index,
         };
-        self.complete_snapshot(ctx, snapshot_range)?;
         //更新 member信息到index中
-        if let (Some(header), Some(index_manager)) = (&self.last_header, &self.index_manager) {
+        // the header of the installed snapshot is saved once it is loaded; `last_header` still is
+        // the header of the previous snapshot here
+        self.complete_snapshot(ctx, snapshot_range, true)?;
+        Ok(())
+    }
+
+    fn save_member_to_index(&self, header: &SnapshotHeaderDto) {
+        if let Some(index_manager) = &self.index_manager {
             let member_after_consensus = if header.member_after_consensus.is_empty() {
                 None
             } else {
@@ -406,7 +428,6 @@ impl RaftSnapshotManager {
             };
             index_manager.do_send(req);
         }
-        Ok(())
     }
 }
 
@@ -481,7 +502,7 @@ impl Handler<RaftSnapshotRequest> for RaftSnapshotManager {
                 Ok(RaftSnapshotResponse::NewSnapshotForLoad(path, next_id))
             }
             RaftSnapshotRequest::CompleteSnapshot(snapshot_range) => {
-                self.complete_snapshot(ctx, snapshot_range).ok();
+                self.complete_snapshot(ctx, snapshot_range, false).ok();
                 Ok(RaftSnapshotResponse::None)
             }
             RaftSnapshotRequest::InstallSnapshot {
